@@ -143,7 +143,7 @@ Fixpoint all3 {A B C} (f : A -> B -> C -> bool) (l1 : list A) (l2 : list B) (l3 
   | _, _, _ => false
   end.
 
-Definition check_c09 (fc : flavour * bcase) : N :=
+Definition check_c09b (fc : flavour * bcase) : N :=
   let c := fc.2 in
   let impl := map strip_c (bc_res c) in
   let p := all3 c09_ok (bc_ops c) impl (map strip_c (spec_results c)) in
@@ -254,7 +254,10 @@ Fixpoint c12_scan (hash : key -> N) (cfg : bcfg) (fn fd : Z) (needed : bool) (s 
                   (if co then Z.abs ((cnt - n) * fd - L * (fd - fn)) * 2 ^ 30 <=? fd * (2 ^ 30 + 1)
                    else if needed then Z.abs (n * fd - cnt * fn) * 2 ^ 30 <=? fd * (2 ^ 30 + 1)
                    else n =? 0) &&
-                  evict_rank_ok (c_strategy cfg) evicted A
+                  (* rank under the TRUE access history: the model's bookkeeping of expiry / last serve / serve count *)
+                  let s1 := b_delete_expired cfg s now in
+                  let truth e := match find hash (data s1) (eK e) with Some me => me | None => e end in
+                  evict_rank_ok (c_strategy cfg) (map truth evicted) (map truth A)
               | _, _, _ => true
               end in
     ok && c12_scan hash cfg fn fd needed s' ops' res' (match r with RWalk l => Some l | _ => None end)
@@ -446,3 +449,32 @@ Definition check_c14 (c : c14case) : N :=
       if c14h_model base fps obs then (if p then 0 else 2)%N else (if p then 1 else 2)%N
   end.
 
+
+(* ---------- C09 (all parts) ---------- *)
+(* Failover part: callers overwrite their key buffer right after Get returns; every backend access, build and
+   return of a Get (and of its background build) must carry the key the Get was called with, and no key
+   lock may leak *)
+Definition spawn_keys (ls : list mlabel) : list (tid * key) :=
+  omap (fun l => match l with MSpawn t k _ _ _ _ _ => Some (t, k) | _ => None end) ls.
+
+Definition key_of_tid (sk : list (tid * key)) (t : tid) : option key :=
+  match list_find (fun p => bool_decide (p.1 = t) || bool_decide (bg_tid p.1 = t)) sk with
+  | Some (_, p) => Some p.2
+  | None => None
+  end.
+
+Definition C09F_obs (c : fcase) : bool :=
+  let sk := spawn_keys (fc_labels c) in
+  (fc_final_locks c =? 0) &&
+  forallb (fun e => match e with
+     | FRead t k _ | FWrite t k _ _ _ _ | FBuildStart t k | FBuildEnd t k _ | FReturn t k _ _ =>
+         bool_decide (key_of_tid sk t = Some k)
+     | _ => true end) (impl_trace c).
+
+Inductive c09case := C09B (fc : flavour * bcase) | C09F (c : fcase).
+
+Definition check_c09 (c : c09case) : N :=
+  match c with
+  | C09B fc => check_c09b fc
+  | C09F f => code (corr_ok f) (C09F_obs f)
+  end.
